@@ -237,6 +237,8 @@ def field_name(n):
 
 def var_ref(n):
     n = strip(n)
+    while isnode(n) and n["k"] == "CXXConstructExpr" and (n.get("copy") or n.get("elidable")) and len(n.get("args") or []) == 1:
+        n = strip(n["args"][0])
     if isnode(n) and n["k"] == "DeclRefExpr" and n.get("dk") in ("Var", "ParmVar", "Binding", "Decomposition"):
         return n["did"]
     return None
@@ -526,6 +528,10 @@ class Fn:
             if n["k"] in ("BinaryOperator", "CompoundAssignOperator") and n["op"].endswith("=") and n["op"] not in CMP_FLIP:
                 if var_ref(n["lhs"]) == did:
                     res.append(n)
+            # class-type assignment: x = y  is  x.operator=(y)
+            if n["k"] == "CXXOperatorCallExpr" and (n.get("callee") or "").endswith("::operator=") and len(n.get("args", [])) == 2:
+                if var_ref(n["args"][0]) == did:
+                    res.append({"k": "BinaryOperator", "op": "=", "lhs": n["args"][0], "rhs": n["args"][1], "id": n["id"], "loc": n["loc"]})
         return res
 
     # ---- CFG as an element-level graph
